@@ -39,7 +39,8 @@ failed on the unchanged tree (`n := 4; for i <- :n { n-- }` ran twice) and was r
 (`b.string undefined`: the documented meaning of `"${x}"` is `x.string`, which exists for int, int64, uint64,
 float64, string, error and Stringers) and are outside the domain although the property's quantifier names bools —
 a compile-time rejection yields no wrong value; recorded here as an observation. Named string types are rejected too
-(`cannot use ms (type MyS) as type string`); not generated.""",
+(`cannot use ms (type MyS) as type string`); not generated. Float constants with many digits (untyped and typed) were added to the
+embedded expressions after a wave-9 seeded change (constant parts formatted with %.6g) was missed.""",
 "C06": """Q ≈3 200 packages / T ≈62 000. cl implements only part of Go's semantic checks and leaves the rest to `go
 build` (unused variables and labels, missing return, types used as values, …). As stated, the property is violated
 by that design; to keep the monitor useful the rejection of an accepted package is classified by what is known
@@ -69,10 +70,12 @@ without results; function declarations are judged on the written Go source throu
 the `func` keyword instead (what the Go toolchain records for the declaration). Statement kind `for-in-filter` was added
 after a second-wave seeded change was missed.""",
 "C10": """Q 40 programs × 6 overload sets / T 1 500. No defect found on the unchanged tree. Style `mixed-literals-and-named`
-(inline literals and named functions in one declaration) was added after a third-wave seeded change was missed.""",
+(inline literals and named functions in one declaration) was added after a third-wave seeded change was missed. One set in six has 11–13 candidates
+(the generated `name__N` functions use one character per index) — added after a wave-9 change was missed.""",
 "C11": """Q 40 packages (1–3 class files) / T 1 500. No defect found on the unchanged tree. Half of the packages declare
 package-level functions named like class methods that call each other bare (added after a second-wave seeded change
-was missed).""",
+was missed). Class files sometimes declare a constant or a type before the var block (added after a wave-9 change was
+missed: the var block was no longer recognised and the fields became package-level variables).""",
 "C12": """Q 700 files / T 20 000. One defect fixed (nil key in Info.Types for composite literals without type expression).
 Seventeen deviation classes are known findings, named by root cause: multi-name `:=`/const/embedded-field positions
 (gogen takes one position per declaration), synthetic AST built by cl for range-expression loops, for-in filters,
